@@ -184,6 +184,11 @@ def comp_case(prefix, retries, chunk, second=None):
         # a received "submitted" for an instance that the first probe removed from the pool crashes the scheduler
         # (findings/C10.json: orphan-submitted-crash): not a job event, not generated as a second probe
         rot = [('msg', 'hello', pr[2]) if pr[0] == 'msg' and pr[1] == 'submitted' else pr for pr in rot]
+        if prefix in ('Wr', 'Wsr'):
+            # the main loop after the first probe re-prepares the waiting instance under the next submit number:
+            # a submit result is delivered for that job (the result of the old one would be dropped by the real
+            # dispatch of jobs-submit output, which the subres op bypasses)
+            rot = [('subres', pr[1], sn + 1) if pr[0] == 'subres' else pr for pr in rot]
         ops += [probe_op(i, pr) for i, pr in zip(pts, rot)] + [L]
     ops += [L]
     cid = f'comp-{prefix}-{retries or "N"}-c{chunk}' + (f'-{second}' if second is not None else '')
